@@ -352,3 +352,7 @@ LEMMAS = list(globals().get("LEMMAS", [])) + [_Lemma("utf8-repeat-whole-copies",
 from contracts import c01 as _c01sc  # noqa: E402
 
 CONTRACTS += [c for c in _c01sc.CONTRACTS if c.id.startswith("safe_crypt[")]  # undecodable bytes -> None -> the built-in implementation takes over
+
+from contracts import c05 as _c05b3  # noqa: E402
+
+CONTRACTS += [_c05b3.bcrypt_2_contract]  # backends without native $2$ support all get the same emulated input (byte- / character-wise repetition per backend requirement)
